@@ -48,7 +48,7 @@ func ruleGroupSpawn(c *Ctx, r *R) {
 	var add *ssa.Call
 	instrs(sp, func(b *ssa.BasicBlock, i int, in ssa.Instruction) {
 		if call, ok := in.(*ssa.Call); ok {
-			if cal := call.Call.StaticCallee(); cal != nil && cal.Name() == "Add" && cal.Signature.Recv() != nil && isNamedType(cal.Signature.Recv().Type(), "sync", "WaitGroup") {
+			if cal := call.Call.StaticCallee(); cal != nil && fname(cal) == "Add" && cal.Signature.Recv() != nil && isNamedType(cal.Signature.Recv().Type(), "sync", "WaitGroup") {
 				add = call
 			}
 		}
@@ -114,7 +114,7 @@ func ruleGroupSpawn(c *Ctx, r *R) {
 					cc = &x.Defer.Call
 				}
 				if cc != nil {
-					if cal := cc.StaticCallee(); cal != nil && cal.Name() == "Done" {
+					if cal := cc.StaticCallee(); cal != nil && fname(cal) == "Done" {
 						return ss(1), true
 					}
 				}
@@ -151,7 +151,7 @@ func ruleGroupSpawn(c *Ctx, r *R) {
 				if cal := staticCallee(&call.Call); cal != nil && cal == st {
 					stopIn = call
 				}
-				if cal := call.Call.StaticCallee(); cal != nil && cal.Name() == "Wait" {
+				if cal := call.Call.StaticCallee(); cal != nil && fname(cal) == "Wait" {
 					waitIn = call
 				}
 			}
@@ -179,7 +179,7 @@ func groupWorkers(c *Ctx) map[string]*ssa.Function {
 		}
 		instrs(fn, func(b *ssa.BasicBlock, i int, in ssa.Instruction) {
 			if call, ok := in.(*ssa.Call); ok {
-				if cal := staticCallee(&call.Call); cal != nil && cal.Name() == "spawn" && len(call.Call.Args) == 2 {
+				if cal := staticCallee(&call.Call); cal != nil && fname(cal) == "spawn" && len(call.Call.Args) == 2 {
 					if w := resolveFuncValue(call.Call.Args[1], 0); w != nil {
 						out[n] = w
 					}
@@ -492,7 +492,7 @@ var _ = late(func() {
 							return ss(0), true
 						}
 					case *ssa.Call:
-						if cal := x.Call.StaticCallee(); cal != nil && cal.Name() == "Reset" && cal.Signature.Recv() != nil && isNamedType(cal.Signature.Recv().Type(), "time", "Timer") {
+						if cal := x.Call.StaticCallee(); cal != nil && fname(cal) == "Reset" && cal.Signature.Recv() != nil && isNamedType(cal.Signature.Recv().Type(), "time", "Timer") {
 							return ss(1), true
 						}
 					}
@@ -544,7 +544,7 @@ var _ = late(func() {
 						}
 					}
 				}
-				if cal := call.Call.StaticCallee(); cal != nil && cal.Name() == "Wait" && cal.Signature.Recv() != nil && isNamedType(cal.Signature.Recv().Type(), "sync", "WaitGroup") {
+				if cal := call.Call.StaticCallee(); cal != nil && fname(cal) == "Wait" && cal.Signature.Recv() != nil && isNamedType(cal.Signature.Recv().Type(), "sync", "WaitGroup") {
 					if q == 1 {
 						return ss(2), true
 					}
